@@ -119,8 +119,31 @@ def vcase (g : GroupValidate.VGroup) (j : Json) : Except String Json := do
                 ("hreq", jbool (GroupValidate.otherNames g m.env.ns (·.required)).isEmpty)])
   | _, _ => pure (jobj [("mixed", jbool true), ("speaking", jarr ((GroupValidate.speaking g text).map jstr))])
 
+/-- `{"name": "...", "attrs": [["k","v"],...], "lib": bool}` -/
+def sentry (j : Json) : Except String SEntry := do
+  let attrs ← (← getArr j "attrs").mapM fun kv => do
+    match ← asArr kv with
+    | [k, v] => pure ((← asStr k), (← asStr v))
+    | _ => .error "attribute pair expected"
+  pure ⟨← getStr j "name", attrs, getBoolD j "lib" false⟩
+
+def sentryJson (e : SEntry) : Json :=
+  jobj [("name", jstr e.name), ("attrs", jarr (e.attrs.map fun kv => jarr [jstr kv.1, jstr kv.2])), ("lib", jbool e.inLib)]
+
 def handle (op : String) (j : Json) : Option (Except String Json) :=
   match op with
+  | "c13.sections" => some do
+      let base ← (← getArr j "base").mapM sentry
+      let lib ← (← getArr j "lib").mapM sentry
+      let am := getBoolD j "am" false
+      match mergeSection fc base lib am with
+      | .ok m =>
+        -- conclusion of `section_conservative`, evaluated
+        let kept := base.all fun b => sectionGet fc m b.name == sectionGet fc base b.name
+        let present := (offered lib am).all fun e => m.contains e
+        pure (jobj [("ok", jarr (m.map sentryJson)), ("base_kept", jbool kept), ("lib_present", jbool present),
+                    ("prefix_kept", jbool (m.take base.length == base))])
+      | .error d => pure (jobj [("err", Json.str "SCHEMA_DUPLICATE_NAMES"), ("dups", jarr (d.map jstr))])
   | "c13.validate" => some do
       let g ← (← getArr j "members").mapM vmember
       let answers ← (← getArr j "cases").mapM (vcase g)
